@@ -46,7 +46,9 @@ HasPlace(p, pl) == \E i \in DOMAIN p : p[i].place = pl
 ShapeOK(p, s) == /\ (s = "flat") => ~HasPlace(p, "loop")
                  /\ (s \in ShapesProbe) <=> HasPlace(p, "nested")
 \* the second spelling/order variant (alt = 1) is rendered for the shapes "loop" and nest-* only
-AltOK(s, a) == (a = 1) => (s = "loop" \/ s \in ShapesProbe)
+\* alt = 2: every device declared before the loop is bound to one and the same identifier (shapes "loop" and "flat")
+AltOK(s, a) == /\ (a = 1) => (s = "loop" \/ s \in ShapesProbe)
+               /\ (a = 2) => (s \in {"loop", "flat"})
 
 GInit == Init /\ plan \in Plans /\ shape \in Shapes /\ alt \in Alts /\ ShapeOK(plan, shape) /\ AltOK(shape, alt)
 GNext == /\ \/ Len(devs) < Len(plan) /\ Declare(plan[Len(devs) + 1].kind, plan[Len(devs) + 1].place)
